@@ -233,6 +233,8 @@ def main():
         text = j["files"]["main.fer"]
         h = hashlib.sha1(text).hexdigest()[:12]
         rp = {"kind": "input", "base": n, "files": {"main.fer": text.decode("latin1")}, "base_files": {"main.fer": s.decode("latin1")}, "plan": {str(k): v.decode("latin1") for k, v in pl.items()}}
+        if o.timeout:
+            continue          # still no verdict after the solitary re-run with a longer limit: says nothing about the layout
         if kind == "acc":
             if not o.accepted:
                 rep.fail("layout-reject:" + h, "program `%s` is accepted, the same program with trivia inserted between tokens is rejected: %s" % (n, [d[2] for d in o.diags][:2]),
